@@ -327,7 +327,7 @@ pub fn run(args: &[String]) -> i32 {
         return 0;
     }
     let prelude = "From Coq Require Import List NArith ZArith Bool.\nFrom YV Require Import Fix.Patch Fix.FixCheck.\nImport ListNotations.\nLocal Open Scope N_scope.\n";
-    let mut shards = Shards::new(Path::new(&out), prelude, 100);
+    let mut shards = Shards::new(Path::new(&out), prelude, 40);
     let mut rng = Rng::new(seed);
     let mut stats = Stats::default();
     let mut distinct = std::collections::HashSet::new();
